@@ -187,6 +187,10 @@ def cases(draw):
             ops.append({"op": "touch_sp", "h": editor})
         ops.append({"op": "copy", "h": editor})
         nh += 1
+        if draw(st.integers(0, 2)) == 0:
+            # both open the document on their own (after the copy was taken)
+            ops.append({"op": "doc_set", "h": editor, "k": "x", "v": 1})
+            ops.append({"op": "doc_set", "h": nh - 1, "k": "y", "v": 2})
     e = dict(edit)
     e["h"] = editor
     ops.append(e)
@@ -241,6 +245,11 @@ def run_case(case, ctx):
 
 
 CONSTRUCTED = [
+    # two shallow copies that each opened the document on their own (the copy was taken before the first access), then a re-key
+    {"two_projects": True, "meta": {"payload": True, "prov": "copy_materialised", "dest": "absent", "edit": "sp_set"}, "ops": [
+        {"op": "new_init", "p": 0, "sp": {"a": 0}}, {"op": "write", "h": 0, "name": "f.txt", "data": "x"}, {"op": "copy", "h": 0},
+        {"op": "doc_set", "h": 0, "k": "x", "v": 1}, {"op": "doc_set", "h": 1, "k": "y", "v": 2}, {"op": "sp_set", "h": 0, "k": "a", "v": 1},
+        {"op": "touch_sp", "h": 0}, {"op": "touch_sp", "h": 1}, {"op": "doc_set", "h": 1, "k": "foo", "v": 3}, {"op": "sp_set", "h": 1, "k": "b", "v": 2}, {"op": "touch_sp", "h": 0}]},
     {"two_projects": True, "meta": {"payload": True, "prov": "copy_lazy", "dest": "initialised", "edit": "sp_set"}, "ops": [
         {"op": "new_init", "p": 0, "sp": {"a": 0}}, {"op": "write", "h": 0, "name": "sub/h.txt", "data": "x"}, {"op": "doc_update", "h": 0, "m": {"x": [1, 2]}},
         {"op": "new_init", "p": 0, "sp": {"a": 1}}, {"op": "write", "h": 1, "name": "dest.txt", "data": "d"},
